@@ -4,7 +4,7 @@ from wallet_common import *
 
 MANIFEST_ENTRY = dict(
     cat="model_checking", ref='DESIGN.md 4 C07', engine="wallet-tla",
-    text="TLC explores histories in which an adversary uses w1's foreign API (its own S1 slate relabelled as a reply against normal and late-locked contexts, build_coinbase naming every existing key, the wallet's own slate delivered to its own receive) interleaved with honest traffic, and checks ForeignOnlyAdds on the model; model counter-examples and a covering sample of behaviours are replayed on the real code and judged by ForeignOnlyAdds / ReceiveExactlyOnce / ReplyOwnDataOnly on observed states.",
+    text="TLC explores histories in which an adversary uses w1's foreign API (its own S1 slate relabelled as a reply against normal and late-locked contexts, build_coinbase naming every existing key, the wallet's own slate delivered to its own receive) interleaved with honest traffic, and checks ForeignOnlyAdds on the model; model counter-examples and a sample of behaviours covering every class of named record are replayed on the real code - half of them through the wallet's foreign JSON-RPC listener (request mapping of foreign_rpc.rs, version middleware, api::Foreign) and api::Owner instead of libwallet::api_impl - and judged by ForeignOnlyAdds / ReceiveExactlyOnce / ReplyOwnDataOnly on observed states.",
     technique="TLC model checking of spec/MCWallet.tla + TLC-generated behaviours replayed on the real code + TLC trace validation (spec/TraceWallet.tla)",
     note=WALLET_NOTE)
 
